@@ -41,14 +41,14 @@ def gen_scripts(ctx, n, seed):
     return ctx.generate("Gen_Renderer", cfg, simulate="num=%d" % n, depth=10, seed=seed, deadlock=False)
 
 
-def configs():
+def configs(extras=True, pads=None):
     """(edns name, edns, pad, key name, key, tsig extras, pt)"""
     for en, ed in EDNS.items():
-        for pad in (PADS if en != "off" else [0]):
+        for pad in ((pads or PADS) if en != "off" else [0]):
             for kn, key in KEYS.items():
                 for pt in (False, True):
                     yield en, ed, pad, kn, key, NOERR, pt
-    for pt in (False, True):
+    for pt in ((False, True) if extras else ()):
         for pad in (0, 16, 128):
             # TSIG with an error and other data (BADTIME response)
             yield "on", EDNS["on"], pad, "badtime", KEYS["shared"], BADTIME, pt
@@ -115,7 +115,7 @@ def sweep_jobs():
     return jobs
 
 
-def make_jobs(ctx, scripts, want, lo=520, hi=900):
+def make_jobs(ctx, scripts, want, lo=520, hi=900, extras_all=True):
     jobs = []
     used = 0
     scripts = [SEED_MESSAGE] + list(scripts)
@@ -127,7 +127,8 @@ def make_jobs(ctx, scripts, want, lo=520, hi=900):
         if not (lo <= plain <= hi):
             continue
         used += 1
-        for en, ed, pad, kn, key, tx, pt in configs():
+        # quick: the BADTIME / existing-PADDING-option configurations run on the seed message (and in the sweep) only
+        for en, ed, pad, kn, key, tx, pt in configs(extras_all or i == 0, None if (extras_all or i == 0) else [0, 16, 128]):
             h = dict(base)
             h["edns"] = ed
             sc = [h] + s[1:]
@@ -167,7 +168,7 @@ def run(ctx):
     else:
         ctx.model("MC_RendererLimits", "MC_RendererLimits_quick.cfg" if quick else "MC_RendererLimits_thorough.cfg", workers=1)
         scripts = gen_scripts(ctx, 60 if quick else 400, ctx.seed + 1)
-        jobs, used = make_jobs(ctx, scripts, 2 if quick else 16)
+        jobs, used = make_jobs(ctx, scripts, 2 if quick else 16, extras_all=not quick)
         jobs += sweep_jobs()
         ctx.extra["messages"] = used
         ctx.log("%d messages -> %d renderings" % (used, len(jobs)))
